@@ -130,7 +130,7 @@ def arithmetic_simple(L, c, qt, u, fu, oqt):
 def arithmetic_derived(ctx, L, T, B, r, n_cases):
     """pairs of derived amounts whose dimension vectors differ by one factor."""
     nul = lambda *a: None  # noqa
-    done = 0
+    done = attempts_failed = 0
     while done < n_cases:
         cls = "scalar" if r.random() < 0.6 else "array"
         cont = r.choice(("list", "tuple", "nd"))
@@ -142,7 +142,15 @@ def arithmetic_derived(ctx, L, T, B, r, n_cases):
         try:
             a, ma = programs.evaluate(T, sa, cls, cont, nul, n)
             b, mb = programs.evaluate(T, sb2, cls, cont, nul, n)
-        except (programs.Degenerate, programs.EvalError):
+        except programs.Degenerate:
+            continue
+        except programs.EvalError:
+            # a valid operand that barril refuses to build: another property's finding, but this one decides nothing then
+            ctx.count("derived operands that could not be built")
+            attempts_failed += 1
+            if attempts_failed > 20 * n_cases:
+                ctx.inconclusive.append("derived operands could not be built (%d failures)" % attempts_failed)
+                return
             continue
         if not ma.dim or not mb.dim or ma.dim == mb.dim:
             continue  # dimensionless operands are exempt by the statement
@@ -187,12 +195,23 @@ def mixed_unit_operands(ctx, L):
     wrong = [lambda: Scalar(3.0, "s"), lambda: Scalar(3.0, "kg") / Scalar(2.0, "s"), lambda: Scalar("length", 2.0, "m"), lambda: Scalar(2.0, "m") * Scalar(2.0, "m") * Scalar(2.0, "m") * Scalar(1.0, "m")]
     for mi, m in enumerate(maps):
         for how in ("CreateDerived", "ObtainQuantity(dict)"):
-            q = Quantity.CreateDerived(OrderedDict((k, list(v)) for k, v in m.items())) if how == "CreateDerived" else ObtainQuantity(OrderedDict((k, list(v)) for k, v in m.items()))
+            try:
+                q = Quantity.CreateDerived(OrderedDict((k, list(v)) for k, v in m.items())) if how == "CreateDerived" else ObtainQuantity(OrderedDict((k, list(v)) for k, v in m.items()))
+                wrong_objs = [mk() for mk in wrong]
+            except Exception as e:  # barril refuses a valid operand: not this property's finding, but nothing is decided here then
+                ctx.count("mixed-unit operands that could not be built")
+                ctx.inconclusive.append("mixed-unit operands could not be built: %s" % repr(e)[:120])
+                continue
             for cls in ("Scalar", "Array[list]", "Array[nd]"):
                 a = Scalar(q, 12.0) if cls == "Scalar" else Array(q, [12.0, 3.0] if cls == "Array[list]" else np.array([12.0, 3.0]))
                 k = Scalar(2.0, "m") if cls == "Scalar" else Array([2.0, 4.0], "m")
-                before = (snapshot.value_object(a * k), snapshot.value_object(a / k), snapshot.quantity_fingerprint(q))
                 case = {"map": [[c, u, e] for c, (u, e) in m.items()], "built_by": how, "class": cls}
+                try:
+                    before = (snapshot.value_object(a * k), snapshot.value_object(a / k), snapshot.quantity_fingerprint(q))
+                except Exception as e:  # the *valid* product raises: the "later valid operations" clause cannot be asked
+                    ctx.count("mixed-unit operands: the valid product raised")
+                    ctx.inconclusive.append("valid product of a mixed-unit operand raised: %s" % repr(e)[:120])
+                    continue
                 for wi, mk in enumerate(wrong):
                     b = mk() if cls == "Scalar" else Array(mk().GetQuantity(), [1.0, 2.0])
                     if _dimension(a) == _dimension(b):
@@ -205,7 +224,10 @@ def mixed_unit_operands(ctx, L):
                         for nme, op in ORDER:
                             L.must_raise("mixed-unit derived Scalar %s" % nme, lambda: op(a, b), case, (a, b))
                     ctx.ev()
-                    after = (snapshot.value_object(a * k), snapshot.value_object(a / k), snapshot.quantity_fingerprint(q))
+                    try:
+                        after = (snapshot.value_object(a * k), snapshot.value_object(a / k), snapshot.quantity_fingerprint(q))
+                    except Exception as e:
+                        after = ("raised", repr(e)[:160])
                     if after != before:
                         ctx.violation("valid-operation-differs-after-a-rejected-one:mixed-unit derived %s" % cls, dict(case, before=repr(before)[:300], after=repr(after)[:300]), replay=case)
                         before = after
